@@ -231,8 +231,19 @@ asn1f_fix_module__phase_1(arg_t *arg) {
 		assert(arg->expr == expr);
 	}
 
+	return rvalue;
+}
+
+static int
+asn1f_fix_module__phase_2(arg_t *arg) {
+	asn1p_expr_t *expr;
+	int rvalue = 0;
+	int ret;
+
 	/*
 	 * ... Check for tags distinctness.
+	 * Done here, when the types of all modules have their tags:
+	 * a type may refer to a type of a module given later.
 	 */
 	TQ_FOR(expr, &(arg->mod->members), next) {
 		arg->expr = expr;
@@ -242,15 +253,6 @@ asn1f_fix_module__phase_1(arg_t *arg) {
 
 		assert(arg->expr == expr);
 	}
-
-	return rvalue;
-}
-
-static int
-asn1f_fix_module__phase_2(arg_t *arg) {
-	asn1p_expr_t *expr;
-	int rvalue = 0;
-	int ret;
 
 	TQ_FOR(expr, &(arg->mod->members), next) {
 
